@@ -1,0 +1,9 @@
+//go:build verif
+
+package pdf
+
+// VerifCloseUnderlying makes [Writer.Close] close the underlying writer, as it
+// does for a Writer made by [Create].  The verification harness uses it to put
+// a failing Close of the sink at the end of the sequence of Writer.Close; the
+// sink must implement io.Closer.
+func VerifCloseUnderlying(w *Writer) { w.closeOrigW = true }
